@@ -856,6 +856,14 @@ static void runProd(const ProdCase& c, Ctx& ctx)
           s2.normMatrix(*a, *dynamic_cast<AMatrixSquare*>(m.get()), c.tx == 0);
           sameMat(s2, e, ctx, key + ":normMatrix", "MatrixSquareSymmetric::normMatrix", sc);
         }
+        // the same product without the middle matrix (an empty x): t(Y) Y for transpose=false, Y t(Y) for transpose=true
+        for (int tr = 0; tr < 2 && !ctx.failed(); tr++)
+        {
+          Ref e0 = tr ? mul(ra, ra.t()) : mul(ra.t(), ra);
+          MatrixSquareSymmetric s3(e0.nr);
+          s3.normMatrix(*a, MatrixSquareGeneral(), tr != 0);
+          sameMat(s3, e0, ctx, key + fmt(":normMatrix-nox:t%d", tr), "MatrixSquareSymmetric::normMatrix without x");
+        }
       }
       else
       {
